@@ -197,8 +197,8 @@ theorem mem_pathOf (body : Wire → List Nd) (w : Wire) (n : Nd) :
     n ∈ pathOf body w ↔ n = .inp w ∨ n ∈ body w ∨ n = .out w := by
   simp [pathOf]
 
-/-- **the graph is a family of register paths with the repaired edge attributes** -/
-structure Rep (g : MG) (W : List Wire) (body : Wire → List Nd) : Prop where
+/-- **the graph is a family of register paths** (edge attributes not yet considered) -/
+structure Rep0 (g : MG) (W : List Wire) (body : Wire → List Nd) : Prop where
   pathNodup : ∀ w ∈ W, (pathOf body w).Nodup
   bodyOp : ∀ w ∈ W, ∀ n ∈ body w, ∃ id o, n = .op id ∧ g.opOf n = some (.gate o) ∧ w ∈ opWires o
   inpOp : ∀ w ∈ W, g.opOf (.inp w) = some (.input w)
@@ -206,14 +206,18 @@ structure Rep (g : MG) (W : List Wire) (body : Wire → List Nd) : Prop where
   kindIn : ∀ n w, g.opOf n = some (.input w) → n = .inp w ∧ w ∈ W
   kindOut : ∀ n w, g.opOf n = some (.output w) → n = .out w ∧ w ∈ W
   wiresNodup : ∀ n o, g.opOf n = some (.gate o) → (opWires o).Nodup
-  edge_sound : ∀ e ∈ g.edges, e.key ∈ W ∧ Adj (pathOf body e.key) e.src e.dst ∧
-    e.ct2 = (role (g.opOf e.src) e.key, role (g.opOf e.dst) e.key)
+  edge_sound0 : ∀ e ∈ g.edges, e.key ∈ W ∧ Adj (pathOf body e.key) e.src e.dst
   edge_complete : ∀ w ∈ W, ∀ u v, Adj (pathOf body w) u v → ∃ e ∈ g.edges, e.src = u ∧ e.dst = v ∧ e.key = w
+  inputsW : ∀ w, Nd.inp w ∈ g.nodes.map (·.1) → w ∈ W
 
-namespace Rep
+/-- **… and every edge carries the repaired attribute**: the pair (role of its register at its tail, role at its head) -/
+structure Rep (g : MG) (W : List Wire) (body : Wire → List Nd) : Prop extends Rep0 g W body where
+  lab : ∀ e ∈ g.edges, e.ct2 = (role (g.opOf e.src) e.key, role (g.opOf e.dst) e.key)
+
+namespace Rep0
 variable {g : MG} {W : List Wire} {body : Wire → List Nd}
 
-theorem path_mem_nodes (r : Rep g W body) (w : Wire) (hw : w ∈ W) (n : Nd) (hn : n ∈ pathOf body w) :
+theorem path_mem_nodes (r : Rep0 g W body) (w : Wire) (hw : w ∈ W) (n : Nd) (hn : n ∈ pathOf body w) :
     n ∈ g.nodes.map (·.1) := by
   rcases (mem_pathOf body w n).1 hn with rfl | h | rfl
   · exact opOf_some_mem g _ _ (r.inpOp w hw)
@@ -222,7 +226,7 @@ theorem path_mem_nodes (r : Rep g W body) (w : Wire) (hw : w ∈ W) (n : Nd) (hn
   · exact opOf_some_mem g _ _ (r.outOp w hw)
 
 /-- a node carrying a gate that lies on the path of `w` is in the body of `w`, and `w` is a register of the gate -/
-theorem gate_on_path (r : Rep g W body) (w : Wire) (hw : w ∈ W) (n : Nd) (o : Op) (ho : g.opOf n = some (.gate o))
+theorem gate_on_path (r : Rep0 g W body) (w : Wire) (hw : w ∈ W) (n : Nd) (o : Op) (ho : g.opOf n = some (.gate o))
     (hn : n ∈ pathOf body w) : n ∈ body w ∧ w ∈ opWires o := by
   rcases (mem_pathOf body w n).1 hn with rfl | h | rfl
   · rw [r.inpOp w hw] at ho; cases ho
@@ -234,17 +238,26 @@ theorem gate_on_path (r : Rep g W body) (w : Wire) (hw : w ∈ W) (n : Nd) (o : 
     exact ⟨h, hw'⟩
   · rw [r.outOp w hw] at ho; cases ho
 
-theorem inp_on_path (r : Rep g W body) (w x : Wire) (hw : w ∈ W) (hn : Nd.inp x ∈ pathOf body w) : x = w := by
+theorem inp_on_path (r : Rep0 g W body) (w x : Wire) (hw : w ∈ W) (hn : Nd.inp x ∈ pathOf body w) : x = w := by
   rcases (mem_pathOf body w _).1 hn with h | h | h
   · injection h
   · obtain ⟨id, o, he, _⟩ := r.bodyOp w hw _ h; cases he
   · cases h
 
-theorem out_on_path (r : Rep g W body) (w x : Wire) (hw : w ∈ W) (hn : Nd.out x ∈ pathOf body w) : x = w := by
+theorem out_on_path (r : Rep0 g W body) (w x : Wire) (hw : w ∈ W) (hn : Nd.out x ∈ pathOf body w) : x = w := by
   rcases (mem_pathOf body w _).1 hn with h | h | h
   · cases h
   · obtain ⟨id, o, he, _⟩ := r.bodyOp w hw _ h; cases he
   · injection h
+
+end Rep0
+
+namespace Rep
+variable {g : MG} {W : List Wire} {body : Wire → List Nd}
+
+theorem edge_sound (r : Rep g W body) (e : Edge) (he : e ∈ g.edges) : e.key ∈ W ∧ Adj (pathOf body e.key) e.src e.dst ∧
+    e.ct2 = (role (g.opOf e.src) e.key, role (g.opOf e.dst) e.key) :=
+  ⟨(r.edge_sound0 e he).1, (r.edge_sound0 e he).2, r.lab e he⟩
 
 end Rep
 
@@ -306,7 +319,7 @@ theorem iso2_follow (g1 g2 : MG) (W1 W2 : List Wire) (B1 B2 : Wire → List Nd) 
     obtain ⟨hφ, hx⟩ := r2.kindOut _ _ hb
     have hmem : φ (.out w) ∈ pathOf B2 w2 := by rw [h2]; simp
     rw [hφ] at hmem h2
-    have hxw := r2.out_on_path w2 x hw2 hmem
+    have hxw := r2.toRep0.out_on_path w2 x hw2 hmem
     subst hxw
     -- `out x` is the last element of a duplicate-free list, so nothing follows it
     cases rest2 with
@@ -336,7 +349,7 @@ theorem iso2_follow (g1 g2 : MG) (W1 W2 : List Wire) (B1 B2 : Wire → List Nd) 
     -- the edge of `g1` and its twin in `g2`
     obtain ⟨e, he, hes, hed, hek⟩ := r1.edge_complete w hw u v hadj
     obtain ⟨_, _, hlab⟩ := r1.edge_sound e he
-    have hmatch := (hf.edges u (r1.path_mem_nodes w hw u hu1) v (r1.path_mem_nodes w hw v hv1)).2
+    have hmatch := (hf.edges u (r1.toRep0.path_mem_nodes w hw u hu1) v (r1.toRep0.path_mem_nodes w hw v hv1)).2
     obtain ⟨e', he', hct⟩ := edgeMatch2_mem _ _ hmatch e ((mem_edgesBetween g1 u v e).2 ⟨he, hes, hed⟩)
     obtain ⟨he'm, hes', hed'⟩ := (mem_edgesBetween g2 _ _ e').1 he'
     obtain ⟨hk'W, hadj', hlab'⟩ := r2.edge_sound e' he'm
@@ -347,7 +360,7 @@ theorem iso2_follow (g1 g2 : MG) (W1 W2 : List Wire) (B1 B2 : Wire → List Nd) 
       rcases hkd with ⟨hui, hφi⟩ | ⟨⟨id, hid⟩, hrole⟩
       · have := adj_mem_left hadj'
         rw [hφi] at this
-        exact (r2.inp_on_path e'.key w2 hk'W this).symm
+        exact (r2.toRep0.inp_on_path e'.key w2 hk'W this).symm
       · -- `u` is an operation node; so is its image, and the two registers have the same role there
         have hub : u ∈ B1 w := by
           rcases (mem_pathOf B1 w u).1 hu1 with h | h | h
@@ -355,14 +368,14 @@ theorem iso2_follow (g1 g2 : MG) (W1 W2 : List Wire) (B1 B2 : Wire → List Nd) 
           · exact h
           · rw [hid] at h; cases h
         obtain ⟨id', o1, _, ho1, _⟩ := r1.bodyOp w hw u hub
-        obtain ⟨a, b, ha, hb, hab⟩ := hf.nodes u (r1.path_mem_nodes w hw u hu1)
+        obtain ⟨a, b, ha, hb, hab⟩ := hf.nodes u (r1.toRep0.path_mem_nodes w hw u hu1)
         rw [ho1] at ha
         injection ha with ha
         subst ha
         obtain ⟨o2, rfl⟩ := nodeMatch_gate o1 b hab
         have hφu2 : φ u ∈ pathOf B2 w2 := by rw [h2]; simp
-        have hin2 := (r2.gate_on_path w2 hw2 (φ u) o2 hb hφu2).2
-        have hin' := (r2.gate_on_path e'.key hk'W (φ u) o2 hb (adj_mem_left hadj')).2
+        have hin2 := (r2.toRep0.gate_on_path w2 hw2 (φ u) o2 hb hφu2).2
+        have hin' := (r2.toRep0.gate_on_path e'.key hk'W (φ u) o2 hb (adj_mem_left hadj')).2
         have e1 : role (g2.opOf (φ u)) e'.key = role (g1.opOf u) w := by
           rw [hlab'] at hct
           have h3 := congrArg Prod.fst hct
